@@ -4,6 +4,7 @@ from concurrent.futures import ThreadPoolExecutor
 from .. import core, pipe, itergen as IG
 from .c03 import report_compile_failures
 
+from ..core import COMMON_DIMENSIONS
 PROP = "C10"
 SIZES = dict(quick=dict(maxv=5, depth=lambda n: 3 if n <= 2 else 2, steps=300, mcV=4, mcOps=3),
              thorough=dict(maxv=6, depth=lambda n: 5 if n <= 2 else 4 if n <= 3 else 3, steps=3000, mcV=5, mcOps=4))
@@ -70,6 +71,8 @@ def run(tier, seed, rep):
                        "Index and IndexMut with every disabled variant, EVERY write sequence up to depth D over all keys x {0,1,2} (each edge on a "
                        "clone of its parent, all keys read back at the leaves) and a long random write/read history; the full slot projection "
                        "is compared after every call" % (sz["maxv"], len(defs)))
+    rep.cov["rule"] += " + a 40-variant table; tables of shared handles built with default() (a change through one slot's value shows in no other slot); Table<T>: Default needs only T: Default"
+    rep.cov["rule"] += COMMON_DIMENSIONS
     rep.cov["samples"] = [dict(def_=e["def"], call=e["call"], key=e["k"], value=e["v"], slots=e["slots"]) for e in evs[40:400:90]]
     rep.assumptions += ["enum names equal to the table template's own generic parameters (T, U, F, E) are kept out of the corpus (observation O1)",
                         "the closures given to from_closure/transform are fixed and shared with the specification (ClosureF, TransformF)"]
